@@ -18,6 +18,7 @@ for mid in sorted(rows, key=lambda x:(int(x[1:].split('-')[0]),x)):
     target,cells=rows[mid]
     caught=[p for p,v in cells.items() if v=='VIOLATION']
     inc=[p for p,v in cells.items() if v=='inconclusive']
+    skipped=[p for p,v in cells.items() if v=='skipped']
     meta=json.load(open(f'/verif/seeded/{mid}/meta.json'))
     need=meta['needs_to_manifest'].replace('|','/')
     if len(need)>140: need=need[:137]+'...'
